@@ -175,14 +175,17 @@ def shipped (name : String) : Option (List ((UInt8 × UInt8) × Int)) :=
   | "pam250" => some Generated.pam250
   | _ => none
 
-/-- Fast matrix function from an association list (array of 65536). -/
-def pmatOf (l : List ((UInt8 × UInt8) × Int)) : Align.PMat :=
-  let arr : Array (Option Int) := l.foldl
+/-- The association list as an array of 65536 entries (first entry wins, as `List.find?`). -/
+def matArr (l : List ((UInt8 × UInt8) × Int)) : Array (Option Int) :=
+  l.foldl
     (fun (a : Array (Option Int)) e =>
       let i := e.1.1.toNat * 256 + e.1.2.toNat
-      -- first entry wins, as `List.find?`
-      if (a[i]?).getD none |>.isSome then a else a.set! i (some e.2))
+      if ((a[i]?).getD none).isSome then a else a.set! i (some e.2))
     (Array.replicate 65536 none)
+
+/-- Matrix function over a prebuilt array (build the array ONCE per op: a `let` inside
+`fun x y => …` would be recomputed at every look-up). -/
+def pmatOfArr (arr : Array (Option Int)) : Align.PMat :=
   fun x y => (arr[x.toNat * 256 + y.toNat]?).getD none
 
 def levPMat : Align.PMat := fun x y => some (if x == y then 0 else -1)
@@ -296,14 +299,14 @@ def step (line : String) : String :=
   | "al.global" :: rest =>
     let (ml, rest) := matOf rest
     match rest with
-    | [a, b] => match Align.globalP (pmatOf ml) (unhex a) (unhex b) with
+    | [a, b] => match Align.globalP (pmatOfArr (matArr ml)) (unhex a) (unhex b) with
       | some (steps, sc) => s!"{joinS "" (steps.map stepS)} {sc}"
       | none => "P"
     | _ => "bad-op"
   | "al.local" :: rest =>
     let (ml, rest) := matOf rest
     match rest with
-    | [a, b] => match Align.localP (pmatOf ml) (unhex a) (unhex b) with
+    | [a, b] => match Align.localP (pmatOfArr (matArr ml)) (unhex a) (unhex b) with
       | some (steps, ai, bi, sc) => s!"{joinS "" (steps.map stepS)} {ai} {bi} {sc}"
       | none => "P"
     | _ => "bad-op"
@@ -311,10 +314,10 @@ def step (line : String) : String :=
     match shipped name with
     | some ml =>
       if which == "g" then
-        match Align.globalP (pmatOf ml) (unhex a) (unhex b) with
+        match Align.globalP (pmatOfArr (matArr ml)) (unhex a) (unhex b) with
         | some (steps, sc) => s!"{joinS "" (steps.map stepS)} {sc}"
         | none => "P"
-      else match Align.localP (pmatOf ml) (unhex a) (unhex b) with
+      else match Align.localP (pmatOfArr (matArr ml)) (unhex a) (unhex b) with
         | some (steps, ai, bi, sc) => s!"{joinS "" (steps.map stepS)} {ai} {bi} {sc}"
         | none => "P"
     | none => "bad-op"
